@@ -4,7 +4,8 @@ Theorems: lean/Goat/Props/C14.lean about lean/Goat/Model/Pipeline.lean (runner, 
 completion latch, manager Wait, nested submissions), for all graphs and all schedules, plus the
 trace monitor `accepts` (sound and complete for the declarative trace property; every model run
 accepted).  Tie to /repo: harness/cmd/pipeline runs generated task graphs on a real app and the
-recorded event traces go through the compiled monitor (m_pipeline); and a STRUCTURAL tie: harness/cmd/pipefacts
+recorded event traces go through the compiled monitor (m_pipeline), family c16x (pipeline_common: the graphs of C16 run in
+eight kinds of scope, with pip:clear) included; and a STRUCTURAL tie: harness/cmd/pipefacts
 (go/ast) regenerates lean/Goat/Tie/ExtractedPipeC14.lean on every run and the theorems tie_* of
 lean/Goat/Tie/PipeC14.lean compare the skeletons of runGo, waitForTasks, Create, Wait, Task.Close, RunLoop … with
 what the model's steps assume (checks/pipe_tie.py).  PARTIAL level: the structural tie is syntactic and the
@@ -48,7 +49,7 @@ META = dict(
 
 def run(ctx):
     try:
-        pc.run_family(ctx, "C14", "c14", 4000, 300000, ["C14", "C16"],
+        pc.run_family(ctx, "C14", "c14", 4000, 300000, ["C14", "C16"], scoped=(1600, 40000),
                       obligations=pipe_tie.obligations, tie_modules=[pipe_tie.tie_module(ctx)])
     finally:
         pipe_tie.restore(ctx)   # a run against a scratch worktree leaves the extracted facts of /repo behind
